@@ -20,8 +20,8 @@ def lean_files():
 SRC = {p: open(p).read() for p in lean_files()}
 
 def find(name):
-    pat = re.compile(r'^(?:private |protected )?theorem ' + re.escape(name) + r'(?=[\s({\[:])', re.M)
-    hits = [(p, m.start()) for p, s in SRC.items() for m in [pat.search(s)] if m]
+    pat = re.compile(r'^[ \t]*(?:private |protected )?theorem ' + re.escape(name) + r'(?=[\s({\[:])', re.M)
+    hits = [(p, m.start() + len(m.group(0)) - len(m.group(0).lstrip())) for p, s in SRC.items() for m in [pat.search(s)] if m]
     if len(hits) != 1: raise SystemExit('theorem %s: %d definitions found' % (name, len(hits)))
     return hits[0]
 
